@@ -511,7 +511,9 @@ func (s *serverStream) SetTrailer(md metadata.MD) {
 	s.wmu.Lock()
 	defer s.wmu.Unlock()
 
-	s.tr = append(s.tr, md)
+	// copy: the trailers are only put together when the handler returns,
+	// and the caller is free to re-use md in the meantime
+	s.tr = append(s.tr, md.Copy())
 }
 
 func (s *serverStream) Context() context.Context {
